@@ -322,23 +322,11 @@ Proof.
   - eapply cap_same_core; [| | | |exact I1]; reflexivity.
 Qed.
 
-Lemma cap_dial_addr_missing m l p : CapInv L m l -> CapInv L (fst (do_dial_addr_missing L m p)) l.
-Proof.
-  intros I. unfold do_dial_addr_missing.
-  destruct (limit_reached (max_out L) (outs m)); [exact I|].
-  assert (I0 : CapInv L (set_known (bump_conn m) p) l).
-  { eapply cap_same_core; [| | | |exact I]; reflexivity. }
-  destruct (can_dial (state_of (set_known (bump_conn m) p) p)) eqn:Eg; try exact I0.
-  assert (Hnone : forall c b, lookup c l = Some (p, b) -> False).
-  { intros c b Hl. destruct I0 as [H1 _ _ _ _ _ _ _ _ _ _ _]. exact (not_recorded_fresh _ Eg c (H1 _ _ _ Hl)). }
-  cbn [fst]. apply cap_set_state; [apply cap_set_state; [exact I0|]|]; intros c b Hl; exfalso; eauto.
-Qed.
-
 Lemma cap_dial_shape m l a : CapInv L m l -> CapInv L (fst (do_dial_shape L m a)) l.
 Proof.
   intros I. unfold do_dial_shape.
   destruct (limit_reached (max_out L) (outs m)); [exact I|].
-  destruct (DialShape.dial_shape LISTEN a); [exact I | now apply cap_dial_addr | now apply cap_dial_addr_missing].
+  destruct (DialShape.dial_shape LISTEN a); [exact I | now apply cap_dial_addr | exact I].
 Qed.
 
 Lemma cap_dial_failure m l c pa : CapInv L m l -> CapInv L (fst (do_dial_failure m c pa)) l.
